@@ -50,6 +50,9 @@ type UEParams struct {
 	ICSOpt      int `json:"ics_opt"`   // optional IEs of InitialContextSetupRequest
 	RegAccOpt   int `json:"regacc_opt"`
 	CUCOpt      int `json:"cuc_opt"`
+	SMCNgapOpt  int  `json:"smc_ngap_opt,omitempty"` // optional IEs of the DownlinkNASTransport carrying SECURITY MODE COMMAND (after NAS-PDU)
+	CUCNgapOpt  int  `json:"cuc_ngap_opt,omitempty"` // same for the one carrying CONFIGURATION UPDATE COMMAND
+	DeregNgapOpt int `json:"dereg_ngap_opt,omitempty"` // same for the one carrying DEREGISTRATION ACCEPT
 	IDPairInRel bool `json:"id_pair"` // UEContextReleaseCommand carries the id pair (else AMF id only)
 	// session
 	UEIP       string `json:"ue_ip"`
@@ -91,6 +94,10 @@ type AMFParams struct {
 	Capacity int    `json:"capacity"`
 	Backup   string `json:"backup,omitempty"`
 	NSlices  int    `json:"nslices"`
+	// further PLMNs the AMF serves (3 digits MCC + 2/3 digits MNC each), listed before / after the
+	// gNB's own PLMN in PLMNSupportList and ServedGUAMIList
+	PLMNsBefore []string `json:"plmns_before,omitempty"`
+	PLMNsAfter  []string `json:"plmns_after,omitempty"`
 }
 
 // Latency describes the network's timing.
